@@ -15,8 +15,10 @@ import (
 	"io"
 	"os"
 	"path/filepath"
+	"runtime"
 	"sort"
 	"strings"
+	"sync"
 
 	"github.com/go-git/go-billy/v6"
 	"github.com/go-git/go-billy/v6/osfs"
@@ -32,6 +34,8 @@ import (
 )
 
 func init() { rep.Register("c11", c11) }
+
+var byOffsetMu sync.Mutex
 
 type c11Read struct {
 	Op     string `json:"op"`
@@ -331,51 +335,83 @@ func c11(args []string) error {
 		slotOfID[id] = s
 	}
 	usedRows := map[int]int{}
-	nh := 0
 	ops := map[string]int{}
+	var mu sync.Mutex
+	// the histories are independent (a fresh Storage each): read them all, replay on a pool of goroutines
+	var hists [][]c11Read
 	err = rep.ReadNDJSON(args[0], func(line []byte) error {
 		var hist []c11Read
 		if err := json.Unmarshal(line, &hist); err != nil {
 			return err
 		}
-		nh++
-		for k := 0; k < per; k++ {
-			oi := (nh*7 + k*13 + int(rep.Seed())) % len(opts)
-			usedRows[oi]++
-			opt := opts[oi]
-			var fsys billy.Filesystem
-			if opt.mmap {
-				fsys = osfs.New(repo.dir, osfs.WithMmap())
-			} else {
-				fsys = osfs.New(repo.dir)
-			}
-			st := filesystem.NewStorageWithOptions(fsys, cache.NewObjectLRU(opt.cacheSize), filesystem.Options{
-				UseInMemoryIdx: opt.memIdx, LargeObjectThreshold: opt.large, ExclusiveAccess: opt.exclusive,
-				AlternatesFS: osfs.New("/")}) // alternates are absolute paths outside the repository directory
-			var prefix []string
-			for i, rd := range hist {
-				ops[rd.Op]++
-				r.Eval(1)
-				pre := strings.Join(prefix, " ")
-				prefix = append(prefix, rd.Op+"("+rd.S+","+rd.T+")")
-				div := func(class, what string) {
-					key := rd.S + "," + rd.T
-					if class == "wrong-actual-size" {
-						key = "delta-stored" // which slots git stores as deltas is git's choice
-					}
-					r.Diverge(rd.Op+"|"+class+"|"+key, fmt.Sprintf("%s(%s, %s) %s [after: %s] [options: %s, %s]", rd.Op, rd.S, rd.T, what, pre, opt.name, f.name),
-						map[string]any{"history": hist, "step": i + 1, "options": opt.name, "format": f.name})
-				}
-				c11Step(repo, st, fsys, opt, rd, div)
-			}
-			st.Close()
-		}
-		r.Sample(map[string]any{"history": hist})
+		hists = append(hists, hist)
 		return nil
 	})
 	if err != nil {
 		return err
 	}
+	nh := len(hists)
+	workers := runtime.NumCPU()
+	if workers > 12 {
+		workers = 12
+	}
+	if workers < 2 {
+		workers = 2
+	}
+	jobs := make(chan int)
+	var wg sync.WaitGroup
+	for w := 0; w < workers; w++ {
+		wg.Add(1)
+		go func() {
+			defer wg.Done()
+			for hi := range jobs {
+				hist := hists[hi]
+				for k := 0; k < per; k++ {
+					oi := ((hi+1)*7 + k*13 + int(rep.Seed())) % len(opts)
+					opt := opts[oi]
+					mu.Lock()
+					usedRows[oi]++
+					for _, rd := range hist {
+						ops[rd.Op]++
+					}
+					mu.Unlock()
+					var fsys billy.Filesystem
+					if opt.mmap {
+						fsys = osfs.New(repo.dir, osfs.WithMmap())
+					} else {
+						fsys = osfs.New(repo.dir)
+					}
+					st := filesystem.NewStorageWithOptions(fsys, cache.NewObjectLRU(opt.cacheSize), filesystem.Options{
+						UseInMemoryIdx: opt.memIdx, LargeObjectThreshold: opt.large, ExclusiveAccess: opt.exclusive,
+						AlternatesFS: osfs.New("/")}) // alternates are absolute paths outside the repository directory
+					var prefix []string
+					for i, rd := range hist {
+						r.Eval(1)
+						pre := strings.Join(prefix, " ")
+						prefix = append(prefix, rd.Op+"("+rd.S+","+rd.T+")")
+						div := func(class, what string) {
+							key := rd.S + "," + rd.T
+							if class == "wrong-actual-size" {
+								key = "delta-stored" // which slots git stores as deltas is git's choice
+							}
+							r.Diverge(rd.Op+"|"+class+"|"+key, fmt.Sprintf("%s(%s, %s) %s [after: %s] [options: %s, %s]", rd.Op, rd.S, rd.T, what, pre, opt.name, f.name),
+								map[string]any{"history": hist, "step": i + 1, "options": opt.name, "format": f.name})
+						}
+						c11Step(repo, st, fsys, opt, rd, div)
+					}
+					st.Close()
+				}
+				if hi < 5 {
+					r.Sample(map[string]any{"history": hist})
+				}
+			}
+		}()
+	}
+	for i := range hists {
+		jobs <- i
+	}
+	close(jobs)
+	wg.Wait()
 	r.Distinct = nh * per
 	r.Traces = nh * per
 	r.Extra["histories"] = nh
@@ -478,6 +514,9 @@ func c11Step(repo *c11Repo, st *filesystem.Storage, fsys billy.Filesystem, opt c
 			div("wrong-answer", fmt.Sprintf("HasEncodedObject error=%v, spec: %s", err, rd.Expect.R))
 		}
 	case "byoffset":
+		// the decoded idx is shared by all goroutines and may build lookup tables lazily: one at a time
+		byOffsetMu.Lock()
+		defer byOffsetMu.Unlock()
 		base := repo.packOf[rd.S]
 		fh, err := fsys.Open(base + ".pack")
 		if err != nil {
